@@ -13,26 +13,34 @@ Definition C02_full : Prop := forall defs dm ss st,
   ids_unique st ->
   viol_steps defs dm st ss (observed (run_steps (build_rooms defs) dm st ss)) = [].
 
-(* The unchanged code violates it: closed witnesses, one per defect kind (the same scenarios are
-   replayed against the real code by the harness as directed cases 0..5):
-   1 reference / reference tombstone whose source row is not in the room, 2 tombstone naming another
-   entity than the row it removes, 3 row replaced by a row of another entity, 4 another author's
-   reference replaced without the all-rows right, 5 row without JSON content for an entity with
-   required fields *)
+(* The current code still violates it in three delimited ways (closed witnesses; the same
+   scenarios are replayed against the real code by the harness as directed cases 1, 3, 4):
+   1 the tombstone of a stored reference whose source row is not in the tombstone's room,
+   3 a row replaced by a row of another entity, 4 another author's reference replaced without the
+   all-rows right *)
 Theorem C02_refuted :
-  violations w_K1 (run_C02 w_K1) = [1] /\ violations w_K1b (run_C02 w_K1b) = [1] /\
-  violations w_K2 (run_C02 w_K2) = [2] /\ violations w_K3 (run_C02 w_K3) = [3] /\
-  violations w_K4 (run_C02 w_K4) = [4] /\ violations w_K5 (run_C02 w_K5) = [5].
+  violations w_K1b (run_C02 w_K1b) = [1] /\ violations w_K3 (run_C02 w_K3) = [3] /\
+  violations w_K4 (run_C02 w_K4) = [4].
 Proof. exact witnesses. Qed.
 Print Assumptions C02_refuted.
 
 Theorem C02_refuted_in_known_classes :
-  known_C02 w_K1 = [1] /\ known_C02 w_K2 = [2] /\ known_C02 w_K3 = [3] /\ known_C02 w_K4 = [4] /\ known_C02 w_K5 = [5].
+  known_C02 w_K1b = [1] /\ known_C02 w_K3 = [3] /\ known_C02 w_K4 = [4].
 Proof. exact witness_classes. Qed.
 Print Assumptions C02_refuted_in_known_classes.
 
+(* The defects repaired by the fix commits a9c9d9e (reference on a row of another room), 8ef09c7
+   (tombstone naming another entity) and 95fc165 (row without JSON content): their witnesses are
+   now refused, leave no trace and satisfy the oracle (harness directed cases 0, 2, 5) *)
+Theorem C02_repaired_witnesses_hold :
+  run_C02 w_K1 = [2; 1; 2; 0; 0; 0;  0; 1; 100;  2; 1; 2; 0; 0; 0] /\ violations w_K1 (run_C02 w_K1) = [] /\
+  run_C02 w_K2 = [1; 1; 0; 0; 0;  0;  1; 1; 0; 0; 0] /\ violations w_K2 (run_C02 w_K2) = [] /\
+  run_C02 w_K5 = [0; 0; 0; 0;  0; 1; 100;  0; 0; 0; 0] /\ violations w_K5 (run_C02 w_K5) = [].
+Proof. exact repaired_witnesses. Qed.
+Print Assumptions C02_repaired_witnesses_hold.
+
 (* What does hold, for every room history, every state with unique row ids and every sequence of
-   calls of any length: whatever the oracle finds on the model's behaviour is one of the five
+   calls of any length: whatever the oracle finds on the model's behaviour is one of the three
    delimited kinds — never an unexplained change (kind 0): no row, reference or tombstone appears
    without a valid signature, the room, the known entity, conforming JSON and the granted right at
    its own date (both rooms on a move, all-rows right on another author's row); nothing disappears
@@ -40,7 +48,7 @@ Print Assumptions C02_refuted_in_known_classes.
 Theorem C02_outside_known : forall defs dm ss st v,
   ids_unique st ->
   In v (viol_steps defs dm st ss (observed (run_steps (build_rooms defs) dm st ss))) ->
-  v = 1 \/ v = 2 \/ v = 3 \/ v = 4 \/ v = 5.
+  v = 1 \/ v = 3 \/ v = 4.
 Proof. exact model_violations_known. Qed.
 Print Assumptions C02_outside_known.
 
@@ -52,28 +60,31 @@ Theorem C02_outside_known_clean : forall defs dm ss st,
 Proof. exact model_outside_known. Qed.
 Print Assumptions C02_outside_known_clean.
 
-(* per kind of call: which defects each entry point can exhibit *)
+(* per kind of call: which defects each entry point can still exhibit *)
 Theorem C02_nodes_outside_known : forall defs dm R st batch v,
   let r := step_nodes (build_rooms defs) dm R st batch in
   In v (viol_step defs dm (SNodes R batch) (match snd r with 0 :: _ => true | _ => false end) st (fst r)) ->
-  v = 3 \/ v = 5.
+  v = 3.
 Proof. exact step_nodes_viol. Qed.
 Print Assumptions C02_nodes_outside_known.
 
 Theorem C02_edges_outside_known : forall defs dm R st batch v,
   let r := step_edges (build_rooms defs) R st batch in
   In v (viol_step defs dm (SEdges R batch) (match snd r with 0 :: _ => true | _ => false end) st (fst r)) ->
-  v = 1 \/ v = 4.
+  v = 4.
 Proof. exact step_edges_viol. Qed.
 Print Assumptions C02_edges_outside_known.
 
-Theorem C02_node_tombstones_outside_known : forall defs dm st batch v,
+(* row tombstones (delete_nodes): the property holds at full strength — every stored tombstone is
+   validly signed, names the entity of the row it removes and its author is granted the needed
+   right at the deletion date; a row disappears only under such a tombstone, of a version not
+   newer than the one named; nothing else changes *)
+Theorem C02_node_tombstones_holds : forall defs dm st batch v,
   ids_unique st ->
   let r := step_ndels (build_rooms defs) st batch in
-  In v (viol_step defs dm (SNDels batch) (match snd r with 0 :: _ => true | _ => false end) st (fst r)) ->
-  v = 2.
+  ~ In v (viol_step defs dm (SNDels batch) (match snd r with 0 :: _ => true | _ => false end) st (fst r)).
 Proof. exact step_ndels_viol. Qed.
-Print Assumptions C02_node_tombstones_outside_known.
+Print Assumptions C02_node_tombstones_holds.
 
 Theorem C02_edge_tombstones_outside_known : forall defs dm st batch v,
   let r := step_edels (build_rooms defs) st batch in
@@ -91,6 +102,7 @@ Print Assumptions C02_failed_call_changes_nothing.
 (* what else is in the batch or in the tables makes no difference to the verdict on a row *)
 Theorem C02_verdict_local : forall rooms dm R st st' x,
   lookup_node st (n_id x) = lookup_node st' (n_id x) ->
+  tombstoned st x = tombstoned st' x ->
   requested st x = requested st' x /\ accept_node rooms dm R st x = accept_node rooms dm R st' x.
 Proof. exact node_verdict_local. Qed.
 Print Assumptions C02_verdict_local.
